@@ -328,8 +328,8 @@ def factory_sites(ctx, subdir, only_files=None, rule_id=None):
         else:
             if at not in reg["assembly_function_potential"]:
                 probs.append("assembly type %r not in the potential registry" % at)
-            if kt not in reg["kernel_functions_regular"]:
-                probs.append("kernel type %r not in the regular kernel registry (used by mode='potential')" % kt)
+            if kt not in reg["kernel_functions_potential"]:
+                probs.append("kernel type %r not in the kernel registry used by mode='potential'" % kt)
         cx = s.lit("is_complex")
         fam_complex = kt.startswith("helmholtz") or at.startswith("maxwell") or at.startswith("helmholtz")
         if at not in reg["assembly_functions_sparse"] and cx is not None and cx != fam_complex:
